@@ -3,5 +3,5 @@
 cd /verif
 miss=0; n=0
 for d in selftest/C*/; do p=$(basename $d); for f in $d*.diff; do n=$((n+1)); r=$(MUT_BASELINE=0 ./mut $p $f 2>&1 | grep '^MUT'); echo "$r" | grep -q 'exit=1 violations=[1-9]' || { echo "MISSED $r"; miss=$((miss+1)); }; done; done
-for d in seeded/*/; do id=$(basename $d); python3 -c "import json,sys;sys.exit(1 if json.load(open('$d/meta.json')).get('obsolete') else 0)" || continue; p=$(python3 -c "import json;print(json.load(open('$d/meta.json'))['breaks_property'])"); n=$((n+1)); r=$(MUT_BASELINE=0 ./mut $p $d/patch.diff 2>&1 | grep '^MUT'); echo "$r" | grep -q 'exit=1 violations=[1-9]' || { echo "MISSED $id $r"; miss=$((miss+1)); }; done
+for d in seeded/*/; do id=$(basename $d); python3 -c "import json,sys;sys.exit(1 if json.load(open('$d/meta.json')).get('obsolete') else 0)" || continue; p=$(python3 -c "import json;m=json.load(open('$d/meta.json'));print(m.get('check_with') or m['breaks_property'])"); n=$((n+1)); r=$(MUT_BASELINE=0 ./mut $p $d/patch.diff 2>&1 | grep '^MUT'); echo "$r" | grep -q 'exit=1 violations=[1-9]' || { echo "MISSED $id $r"; miss=$((miss+1)); }; done
 echo "selftest-all: $n changes, $miss missed"
